@@ -180,6 +180,9 @@ def run_job(job):
                 ar = eps_async[e_eff]
                 nid2name = {n["nid"]: n["name"] for n in cfg["nodes"]}
                 ref = {n["name"]: [] for n in cfg["nodes"]}
+                # payloads carry the episode number of the graph state they were produced in: the async episode's own number (episodes that
+                # produced no record are not in the stacked graph, so the numbers can differ) is renamed to the compiled episode index
+                assert ar.get("gs_eps", e_eff) == e_eff, "async episode number differs from its index in the stacked graph"
                 for le in compiled.log_for_run(ar["log"], cfg, rngidx):
                     ref[le["kind"]].append(le)
             t = compiled.project_run(st, cfg, gs0, hist, log, gs_f, rngidx, f"{tagm}/r{ri}", rec=rec, ref=ref, xover=rn.xover)
